@@ -119,6 +119,22 @@ def gen(rng, V, depth, pools):
         if rng.random() < 0.5:
             l.reverse()
         return ("bin", rng.choice("**/"), l[0], l[1])
+    if rng.random() < 0.06 and getattr(V, "shared_pool", None):
+        # both operands spell the SAME prefixed base unit (ms, km, g ...), each next to a derived unit and / or a bare base unit of the
+        # mechanical family (1 m/ms / 1 N ms, 1 s/km * 1 J/km): what the derived units leave behind when they are taken apart meets
+        # the shared unit again (seed C11-j: a merge that never drops an entry whose power reaches zero)
+        sh, derived_, bare_ = V.shared_pool
+        e_sh = rng.choice(sh)
+        leaves = []
+        for _k in range(2):
+            fs = [(e_sh, rng.choice([1, 1, -1, -1, 2, -2]))]
+            for e in rng.sample(derived_ + bare_ + bare_, rng.choice([1, 1, 2])):
+                if e["key"] != e_sh["key"] and all(e["key"] != x["key"] for x, _ in fs):
+                    fs.append((e, rng.choice([1, 1, -1])))
+            sv, dims = V.factors_si(fs)
+            xs, x = mag(rng)
+            leaves.append(("lit", "%s %s" % (xs, G.text(fs, rng)), x * sv, dims))
+        return ("bin", rng.choice("**//"), leaves[0], leaves[1])
     if rng.random() < 0.05:
         # two operands that share a unit NAME under different prefixes (500 g/lb * 2 lb/kg, 254 cm/in / 1 in/m); in half of the
         # cases each operand is a ratio whose dimensions cancel inside the operand (seed C04-d)
@@ -166,6 +182,11 @@ def shard(p):
         else:
             V = G.Vocab(d)
         V.confusable = G.confusables(V)
+        V.shared_pool = ([e for e in V.entries if e["unit"] in ("Meter", "Second", "Gram") and e["prefix"] != 0 and len(e["word"]) <= 2],
+                         [e for e in V.entries if e["bare"] and e["unit"] in ("Newton", "Joule", "Watt", "Pascal", "Farad", "Litre", "Acre", "Hertz", "Volt")],
+                         [e for e in V.entries if e["bare"] and e["word"] in ("m", "s", "kg")])
+        if not all(V.shared_pool):
+            V.shared_pool = None
         mech = [e for e in V.entries if e["unit"] in ("Newton", "Joule", "Watt", "Pascal", "Gram", "Meter", "Second", "Acceleration", "Velocity", "Gforce", "Btu", "Electronvolt")]
         elec = [e for e in V.entries if e["unit"] in ("Volt", "Ohm", "Siemens", "Farad", "Henry", "Weber", "Tesla", "Coulomb", "Ampere", "Watt", "Second", "Meter", "Gram")]
         pools = [None, None, mech, elec]
